@@ -59,7 +59,9 @@ ASSUMPTIONS = [
     'condition number up to about 1e9, still far from floating-point singularity; the library agrees with the exact '
     'reference to 1e-12 there); rescaled outcomes whose robust sandwich has an entry that is an exact or near '
     'cancellation (ratio > 1e6) are excluded and counted; cells whose formula is undefined (zero variance, non-positive pair variance, zero initial '
-    'likelihood, exact ties of the LR test) are skipped and counted, not compared',
+    'likelihood, exact ties of the LR test) are skipped and counted, not compared; so are pairwise tests whose variance '
+    'var(i) + var(j) - 2 cov(i,j) is a near cancellation (below 1e-4 of var(i) + var(j) + 2|cov(i,j)|: ill-conditioned; it '
+    'occurs only for K >= 4 in the enumerated space)',
     'p-values are compared with an absolute tolerance of 1e-12 (+ propagated 1e-10 relative error of t): for |t| > 7 all '
     'p-values are indistinguishable from 0 at that tolerance',
     'text views (print_general_statistics, short_summary, __str__, get_html, get_f12) are compared after formatting the '
@@ -507,7 +509,8 @@ class Checker:
         """ref: float | None (must be absent/None) | 'undefined' (skipped)."""
         if isinstance(ref, str):
             self.skipped += 1
-            self.rec.count('cells_skipped_formula_undefined')
+            self.rec.count('cells_skipped_ill_conditioned_pair_variance' if ref == 'ill-conditioned' else
+                           'cells_skipped_formula_undefined')
             return
         if ref is None:
             self.compared += 1
@@ -521,7 +524,8 @@ class Checker:
     def text(self, view, label, where, txt, ref, spec, named, expected_name):
         if isinstance(ref, str) or ref is None:
             self.skipped += 1
-            self.rec.count('cells_skipped_formula_undefined')
+            self.rec.count('cells_skipped_ill_conditioned_pair_variance' if ref == 'ill-conditioned' else
+                           'cells_skipped_formula_undefined')
             return
         self.compared += 1
         if txt.strip() not in fmt_variants(ref, spec):
